@@ -49,6 +49,7 @@ type H struct {
 	schedMu     sync.Mutex
 	goCalls     int
 	gThread     map[string]int // goroutine id -> engine thread
+	allThreads  []int          // engine threads in spawn order
 	paused      int            // recorded preemptions that have been applied so far
 	finished    map[int]chan struct{}
 	// crash replay
@@ -61,6 +62,7 @@ type H struct {
 	remoteServers  []*httptest.Server
 	remoteRequests []string
 	remoteLog      []string
+	baseGoroutines int
 }
 
 type schedGate struct {
@@ -104,6 +106,9 @@ func NewReplay(path string) (*H, *Record, error) {
 			}
 		}
 		var k, t, np int
+		if _, err := fmt.Sscanf(n, "thread %d spawned by thread %d", &t, &k); err == nil {
+			h.allThreads = append(h.allThreads, t)
+		}
 		if _, err := fmt.Sscanf(n, "harness goroutine %d is thread %d", &k, &t); err == nil {
 			h.goThread[k] = t
 		}
@@ -387,6 +392,20 @@ func (h *H) SymbolicSched(preemptions int) {
 		}
 		perG[g][name]++
 		key := fmt.Sprintf("%s#%d", name, perG[g][name])
+		if _, known := h.gThread[g]; !known && len(h.goThread) > 0 {
+			// a goroutine the code under test started: it stands for the first engine thread (in spawn
+			// order) that no harness goroutine and no earlier such goroutine stands for
+			taken := map[int]bool{}
+			for _, t := range h.gThread {
+				taken[t] = true
+			}
+			for _, t := range h.allThreads {
+				if !taken[t] && !h.isHarnessThread(t) {
+					h.gThread[g] = t
+					break
+				}
+			}
+		}
 		n := h.hints[key]
 		if n > 0 {
 			// the pause belongs to the goroutine that stands for the recorded thread; a goroutine the
@@ -479,6 +498,12 @@ func (h *H) Go(f func()) {
 	}
 }
 
+// MarkGoroutines: from here on Wait also waits for goroutines that the code
+// under test starts by itself (under gosx Wait always waits for every thread;
+// natively it waits until the number of goroutines is back at the number
+// counted here).
+func (h *H) MarkGoroutines() { h.baseGoroutines = runtime.NumGoroutine() }
+
 func (h *H) isHarnessThread(t int) bool {
 	if t == 0 {
 		return true
@@ -531,6 +556,17 @@ func (h *H) Wait() bool {
 	go func() { h.wg.Wait(); close(done) }()
 	select {
 	case <-done:
+		// goroutines the code under test started itself (after MarkGoroutines): wait until they are gone too
+		if h.baseGoroutines > 0 {
+			deadline := time.Now().Add(time.Duration(slowFactor()) * 5 * time.Second)
+			for runtime.NumGoroutine() > h.baseGoroutines {
+				if time.Now().After(deadline) {
+					h.Failed = append(h.Failed, "deadlock: goroutines started by the code under test still running after 5s")
+					return false
+				}
+				time.Sleep(2 * time.Millisecond)
+			}
+		}
 		return true
 	case <-time.After(5 * time.Second):
 		h.Failed = append(h.Failed, "deadlock: harness goroutines still blocked after 5s")
@@ -576,7 +612,7 @@ func (h *H) CrashWindowStart() {
 	h.crashAt = int(h.vals["crashpos"])
 	h.windowOpen = true
 	verifhook.SetCallback(func(name string) {
-		if !h.windowOpen || strings.HasPrefix(name, "lock:") || strings.HasPrefix(name, "txn:") || (strings.HasPrefix(name, "commit:") && !h.crashCommits) {
+		if !h.windowOpen || strings.HasPrefix(name, "lock:") || strings.HasPrefix(name, "txn:") || strings.HasPrefix(name, "txnbody:") || (strings.HasPrefix(name, "commit:") && !h.crashCommits) {
 			// lock:<file>:<line> and txn:<file>:<line> points exist only in the instrumented replay build
 			// (scheduling points); they are not crash boundaries of the engine
 			return
